@@ -1,6 +1,6 @@
 ---- MODULE TraceIdentify ----
-(* C46 trace validation (property level).  One run = one connection whose authenticated peer is A.  `msg` events
-   describe what the (possibly lying) remote put on the wire; `received` / `peer_addr` are what identify reports.
+(* C46 trace validation (property level).  One run = one connection whose authenticated peer is A.  msg events
+   describe what the (possibly lying) remote put on the wire; received / peer_addr are what identify reports.
    Every address carries a unique id and its origin (plain listenAddrs field / signed peer record) is visible.
      okRec   = ids of record addresses that arrived in a record validly signed by A (the connection's peer)
      okPlain = ids of plain addresses that arrived in a message that did not carry a foreign public key (an
